@@ -171,6 +171,8 @@ func (d *drv) waitFd(fd int, events int16) bool {
 	return false
 }
 
+var mcpPort int
+
 func tcpPair(ioc *sonic.IO) (sonic.Conn, int, error) {
 	ln, err := net.Listen("tcp", "127.0.0.1:0")
 	if err != nil {
@@ -322,7 +324,19 @@ func (d *drv) mk(kind string, idx int) (*object, error) {
 		}
 		o.peer = s
 	case "mcp":
-		p, err := multicast.NewUDPPeer(d.ioc, "udp", "127.0.0.1:0")
+		// NewUDPPeer binds with SO_REUSEPORT: an ephemeral port may coincide with a reuse-port
+		// socket of another driver process and the kernel would then share the datagrams between
+		// them. Ports come from a range private to this process instead.
+		var p *multicast.UDPPeer
+		var err error
+		for try := 0; try < 100; try++ {
+			mcpPort++
+			port := 20000 + (os.Getpid()%100)*100 + mcpPort%100
+			p, err = multicast.NewUDPPeer(d.ioc, "udp", fmt.Sprintf("127.0.0.1:%d", port))
+			if err == nil {
+				break
+			}
+		}
 		if err != nil {
 			return nil, err
 		}
